@@ -863,3 +863,418 @@ theorem loop_reports_unclosed (tbl : EnvTable) (isB isE : TagName → Bool) (b :
       exact ih st1 r1 st' r' hbt hne' h
 
 end LiquidVerif.TagAudit
+
+namespace LiquidVerif.TagAudit
+
+/-! ## The lexer's output shape, and why the third switch of the restricted grammar is immaterial on it -/
+
+/-- shape of the lexer's output: a `comment` tag token is followed by `endcomment` or by nothing, and
+no `enddoc` tag token ever follows a `doc` tag token -/
+def lexShaped : List TagName → Bool
+  | [] => true
+  | t :: ts =>
+    (if t == nm "comment" then (match ts with | [] => true | u :: _ => u == endNm "comment") else true)
+    && (if t == nm "doc" then !ts.contains (endNm "doc") else true)
+    && lexShaped ts
+
+theorem lexAux_subset : ∀ (ts : List TagName) (d : Nat) (m : LexMode) (x : TagName),
+    x ∈ lexTagsAux d m ts → x ∈ ts := by
+  intro ts
+  induction ts with
+  | nil => intro d m x h; simp [lexTagsAux] at h
+  | cons t ts ih =>
+    intro d m x h
+    cases m with
+    | «until» e =>
+      simp only [lexTagsAux] at h
+      split at h <;> exact List.mem_cons_of_mem _ (ih _ _ _ h)
+    | normal =>
+      simp only [lexTagsAux] at h
+      repeat' split at h
+      all_goals first
+        | exact List.mem_cons_of_mem _ (ih _ _ _ h)
+        | (rcases List.mem_cons.mp h with h | h
+           · simp_all
+           · exact List.mem_cons_of_mem _ (ih _ _ _ h))
+
+theorem lexAux_head_in_comment : ∀ (ts : List TagName) (d : Nat) (m : LexMode), d ≠ 0 →
+    lexTagsAux d m ts = [] ∨ ∃ r, lexTagsAux d m ts = endNm "comment" :: r := by
+  intro ts
+  induction ts with
+  | nil => intro d m _; left; simp [lexTagsAux]
+  | cons t ts ih =>
+    intro d m hd
+    cases m with
+    | «until» e =>
+      simp only [lexTagsAux]
+      split <;> exact ih _ _ hd
+    | normal =>
+      simp only [lexTagsAux]
+      have hd' : (d != 0) = true := by simpa using hd
+      simp only [hd', if_true]
+      repeat' split
+      all_goals first
+        | exact ih _ _ hd
+        | exact Or.inr ⟨_, rfl⟩
+        | exact ih _ _ (by omega)
+        | (apply ih; simp_all; omega)
+
+
+theorem lexAux_shaped : ∀ (ts : List TagName) (d : Nat) (m : LexMode), lexShaped (lexTagsAux d m ts) = true := by
+  intro ts
+  induction ts with
+  | nil => intro d m; simp [lexTagsAux, lexShaped]
+  | cons t ts ih =>
+    intro d m
+    cases m with
+    | «until» e =>
+      simp only [lexTagsAux]
+      split <;> exact ih _ _
+    | normal =>
+      simp only [lexTagsAux]
+      split
+      · exact ih _ _
+      · rename_i hraw
+        split
+        · exact ih _ _
+        · rename_i hdoc
+          split
+          · -- inside a comment
+            split
+            · split
+              · have h1 : (endNm "comment" == nm "comment") = false := by decide
+                have h2 : (endNm "comment" == nm "doc") = false := by decide
+                simp [lexShaped, ih, h1, h2]
+              · exact ih _ _
+            · split <;> exact ih _ _
+          · -- depth 0: the tag is emitted
+            by_cases hc : t = nm "comment"
+            · subst hc
+              simp only [beq_self_eq_true, if_true, lexShaped, ih, Bool.and_true]
+              rcases lexAux_head_in_comment ts 1 .normal (by decide) with h | ⟨r, h⟩
+              · have h2 : (nm "comment" == nm "doc") = false := by decide
+                simp [h, h2]
+              · have h2 : (nm "comment" == nm "doc") = false := by decide
+                simp [h, h2]
+            · have hc' : (t == nm "comment") = false := by simpa using hc
+              simp only [hc', lexShaped, ih, Bool.and_true, Bool.false_eq_true, if_false, Bool.true_and]
+              by_cases hd : t = nm "doc"
+              · subst hd
+                simp only [beq_self_eq_true, if_true, Bool.true_and, Bool.not_eq_true] at hdoc ⊢
+                rw [Bool.not_eq_true'] 
+                rw [Bool.eq_false_iff]; intro hcon
+                have := lexAux_subset ts 0 .normal _ (List.contains_iff_mem.mp hcon)
+                rw [← List.contains_iff_mem, hdoc] at this; cases this
+              · have hd' : (t == nm "doc") = false := by simpa using hd
+                simp [hd']
+
+theorem lexTags_shaped (src : List TagName) : lexShaped (lexTags src) = true := lexAux_shaped src 0 .normal
+
+
+def Frame.isSkip : Frame → Bool
+  | .skip .. => true
+  | _ => false
+
+theorem dispatch_skip {info : TagInfo} {f : Frame} (h : dispatch info = .openF f) (hs : f.isSkip = true) :
+    (info.key = nm "comment" ∧ f = .skip (nm "comment") (endNm "comment") false) ∨
+    (info.key = nm "doc" ∧ f = .skip (nm "doc") (endNm "doc") true) := by
+  unfold dispatch at h
+  split at h
+  · cases h
+  · rename_i hends
+    have h0 : info.key.ends = 0 := by simpa using hends
+    split at h <;> first
+      | (cases h; done)
+      | (cases h; simp [Frame.isSkip] at hs; done)
+      | (cases h
+         rename_i hstem
+         first
+          | (left; refine ⟨?_, rfl⟩; cases hk : info.key; simp_all [nm])
+          | (right; refine ⟨?_, rfl⟩; cases hk : info.key; simp_all [nm]))
+
+
+def noSkip (st : List Frame) : Bool := st.all (fun f => !f.isSkip)
+
+/-- where a skip frame on top of the stack can come from: the `comment` / `doc` TAG token just read -/
+def SkipOrigin (t : TagName) (f : Frame) : Prop :=
+  (t = nm "comment" ∧ f = .skip (nm "comment") (endNm "comment") false) ∨
+  (t = nm "doc" ∧ f = .skip (nm "doc") (endNm "doc") true)
+
+def ShapeOK (t : TagName) (st' : List Frame) : Prop :=
+  noSkip st'.tail = true ∧ ∀ f, st'.head? = some f → f.isSkip = true → SkipOrigin t f
+
+theorem shape_of_noSkip {t : TagName} {st : List Frame} (h : noSkip st = true) : ShapeOK t st := by
+  cases st with
+  | nil => exact ⟨rfl, fun f hf => by cases hf⟩
+  | cons g rest =>
+    simp only [noSkip, List.all_cons, Bool.and_eq_true, Bool.not_eq_true'] at h
+    refine ⟨h.2, fun f hf hs => ?_⟩
+    simp only [List.head?_cons, Option.some.injEq] at hf
+    subst hf; rw [h.1] at hs; cases hs
+
+theorem shape_push {t : TagName} {st : List Frame} {f : Frame} (h : noSkip st = true)
+    (ho : f.isSkip = true → SkipOrigin t f) : ShapeOK t (f :: st) :=
+  ⟨h, fun g hg hs => by simp only [List.head?_cons, Option.some.injEq] at hg; subst hg; exact ho hs⟩
+
+theorem dispatchTok_shape {tbl : EnvTable} {o : Opts} {st st' : List Frame} {t : TagName}
+    (hn : noSkip st = true) (h : dispatchTok tbl o st t = some st') : ShapeOK t st' := by
+  unfold dispatchTok at h
+  split at h
+  · cases h
+  · rename_i info hf
+    obtain ⟨_, hkey⟩ := findTag_some hf
+    split at h
+    · cases h
+    · split at h
+      · cases h
+      · cases h; exact shape_of_noSkip hn
+    · rename_i f hd
+      split at h
+      · cases h
+      · cases h
+        refine shape_push hn (fun hs => ?_)
+        rcases dispatch_skip hd hs with ⟨hk, hf⟩ | ⟨hk, hf⟩
+        · exact Or.inl ⟨hkey ▸ hk, hf⟩
+        · exact Or.inr ⟨hkey ▸ hk, hf⟩
+
+theorem pstep_shape {tbl : EnvTable} {o : Opts} {st st' : List Frame} {t : TagName}
+    (hn : noSkip st = true) (h : pstep tbl o st t = some st') : ShapeOK t st' := by
+  unfold pstep at h
+  cases st with
+  | nil => exact dispatchTok_shape hn h
+  | cons f rest =>
+    have hn' := hn
+    simp only [noSkip, List.all_cons, Bool.and_eq_true, Bool.not_eq_true'] at hn'
+    obtain ⟨hf, hrest⟩ := hn'
+    have hrest' : noSkip rest = true := hrest
+    cases f <;> simp only at h <;> (repeat' split at h) <;>
+      first
+        | (cases h; done)
+        | (simp [Frame.isSkip] at hf; done)
+        | (cases h; exact shape_of_noSkip hrest')
+        | (cases h; exact shape_of_noSkip hn)
+        | (cases h; exact shape_of_noSkip (by simp [noSkip, Frame.isSkip]; exact hrest))
+        | exact dispatchTok_shape hn h
+
+theorem pstep_skipContent_irrel (tbl : EnvTable) (j b : Bool) (st : List Frame) (t : TagName)
+    (h : ∀ f, st.head? = some f → f.isSkip = false) :
+    pstep tbl ⟨j, b, true⟩ st t = pstep tbl ⟨j, b, false⟩ st t := by
+  cases st with
+  | nil => rfl
+  | cons f rest =>
+    cases f <;> first | rfl | (have := h _ rfl; simp [Frame.isSkip] at this)
+
+theorem doc_stuck (tbl : EnvTable) (j b : Bool) (rest : List Frame) : ∀ ts : List TagName,
+    ts.contains (endNm "doc") = false →
+    prun tbl ⟨j, b, true⟩ (.skip (nm "doc") (endNm "doc") true :: rest) ts ≠ some [] := by
+  intro ts
+  induction ts with
+  | nil => intro _ h; simp [prun] at h
+  | cons t ts ih =>
+    intro hc h
+    have hne : (t == endNm "doc") = false := by
+      rw [Bool.eq_false_iff]; intro ht
+      have : t = endNm "doc" := by simpa using ht
+      subst this; simp at hc
+    have hc' : ts.contains (endNm "doc") = false := by
+      rw [Bool.eq_false_iff]; intro hh
+      rw [List.contains_iff_mem] at hh
+      have : (t :: ts).contains (endNm "doc") = true := List.contains_iff_mem.mpr (List.mem_cons_of_mem _ hh)
+      rw [hc] at this; cases this
+    obtain ⟨st', hp, hr⟩ := prun_cons h
+    simp only [pstep, Bool.true_and, hne] at hp
+    split at hp
+    · cases hp
+    · simp only [Bool.false_eq_true, if_false, if_true, Option.some.injEq] at hp
+      subst hp
+      exact ih hc' hr
+
+def TopOK (st : List Frame) (toks : List TagName) : Prop :=
+  ∀ f, st.head? = some f → f.isSkip = true →
+    (f = .skip (nm "comment") (endNm "comment") false ∧ (toks = [] ∨ ∃ r, toks = endNm "comment" :: r)) ∨
+    (f = .skip (nm "doc") (endNm "doc") true ∧ toks.contains (endNm "doc") = false)
+
+theorem lexShaped_cons {t : TagName} {ts : List TagName} (h : lexShaped (t :: ts) = true) :
+    (t = nm "comment" → ts = [] ∨ ∃ r, ts = endNm "comment" :: r) ∧
+    (t = nm "doc" → ts.contains (endNm "doc") = false) ∧ lexShaped ts = true := by
+  simp only [lexShaped, Bool.and_eq_true] at h
+  obtain ⟨⟨h1, h2⟩, h3⟩ := h
+  refine ⟨fun ht => ?_, fun ht => ?_, h3⟩
+  · subst ht
+    simp only [beq_self_eq_true, if_true] at h1
+    cases ts with
+    | nil => exact Or.inl rfl
+    | cons u r =>
+      simp only [beq_iff_eq] at h1
+      exact Or.inr ⟨r, by rw [h1]⟩
+  · subst ht
+    simpa using h2
+
+/-- on lexer-shaped token lists the third switch of the restricted grammar is immaterial -/
+theorem noskip_run (tbl : EnvTable) (j b : Bool) : ∀ (toks : List TagName) (st : List Frame),
+    lexShaped toks = true → noSkip st.tail = true → TopOK st toks →
+    prun tbl ⟨j, b, true⟩ st toks = some [] → prun tbl ⟨j, b, false⟩ st toks = some [] := by
+  intro toks
+  induction toks with
+  | nil => intro st _ _ _ h; exact h
+  | cons t ts ih =>
+    intro st hl hns htop h
+    obtain ⟨hC, hD, hl'⟩ := lexShaped_cons hl
+    obtain ⟨st', hp, hr⟩ := prun_cons h
+    by_cases hskip : ∃ f, st.head? = some f ∧ f.isSkip = true
+    · obtain ⟨f, hf, hfs⟩ := hskip
+      cases st with
+      | nil => cases hf
+      | cons g rest =>
+        simp only [List.head?_cons, Option.some.injEq] at hf
+        subst hf
+        rcases htop g rfl hfs with ⟨hg, hts⟩ | ⟨hg, hts⟩
+        · rcases hts with hts | ⟨r, hts⟩
+          · cases hts
+          · simp only [List.cons.injEq] at hts
+            obtain ⟨ht, _⟩ := hts
+            subst hg ht
+            have hp1 : pstep tbl ⟨j, b, true⟩ (.skip (nm "comment") (endNm "comment") false :: rest) (endNm "comment") = some rest := by
+              simp [pstep]
+            have hp2 : pstep tbl ⟨j, b, false⟩ (.skip (nm "comment") (endNm "comment") false :: rest) (endNm "comment") = some rest := by
+              simp [pstep]
+            rw [hp1] at hp; cases hp
+            have hrest : noSkip st' = true := hns
+            unfold prun; rw [hp2]
+            refine ih st' hl' ?_ ?_ hr
+            · cases st' with
+              | nil => rfl
+              | cons a l => simp only [noSkip, List.all_cons, Bool.and_eq_true] at hrest; exact hrest.2
+            · intro f hf hfs
+              cases st' with
+              | nil => cases hf
+              | cons a l =>
+                simp only [List.head?_cons, Option.some.injEq] at hf; subst hf
+                simp only [noSkip, List.all_cons, Bool.and_eq_true, Bool.not_eq_true'] at hrest
+                rw [hrest.1] at hfs; cases hfs
+        · subst hg
+          exact absurd h (doc_stuck tbl j b rest (t :: ts) hts)
+    · have hno : ∀ f, st.head? = some f → f.isSkip = false := by
+        intro f hf
+        cases hfs : f.isSkip with
+        | false => rfl
+        | true => exact absurd ⟨f, hf, hfs⟩ hskip
+      have hall : noSkip st = true := by
+        cases st with
+        | nil => rfl
+        | cons g rest =>
+          simp only [noSkip, List.all_cons, Bool.and_eq_true, Bool.not_eq_true']
+          exact ⟨hno g rfl, hns⟩
+      have hsh := pstep_shape hall hp
+      rw [pstep_skipContent_irrel tbl j b st t hno] at hp
+      unfold prun; rw [hp]
+      refine ih st' hl' hsh.1 ?_ hr
+      intro f hf hfs
+      rcases hsh.2 f hf hfs with ⟨ht, hf'⟩ | ⟨ht, hf'⟩
+      · exact Or.inl ⟨hf', hC ht⟩
+      · exact Or.inr ⟨hf', hD ht⟩
+
+
+end LiquidVerif.TagAudit
+
+namespace LiquidVerif.TagAudit
+
+/-! ## Counting version of the unclosed-block invariant -/
+
+theorem endOf_ne (b : TagName) : b.endOf ≠ b := by
+  cases b; simp [TagName.endOf]
+
+theorem eq_endOf_of_unEnd {t b : TagName} (ht : t.isEnd = true) (h : t.unEnd = b) : t = b.endOf := by
+  have hne0 : t.ends ≠ 0 := by simpa [TagName.isEnd] using ht
+  subst h
+  cases t with
+  | mk k stem =>
+    simp only [TagName.unEnd, TagName.endOf, TagName.mk.injEq, and_true]
+    simp only at hne0; omega
+
+/-- counting invariant: while more `b` tags are pending (still to come or on the stack) than `end b`
+tags are still to come, `b` ends up on the stack or reported -/
+theorem loop_unclosed_count (tbl : EnvTable) (isB isE : TagName → Bool) (b : TagName)
+    (hEnd : ∀ t, isE t = true → t.isEnd = true) (hB : isB b = true) :
+    ∀ (ts st : List TagName) (r : Report) (st' : List TagName) (r' : Report),
+      (b ∈ r.unclosed ∨ ts.count b + st.count b > ts.count b.endOf) →
+      loop tbl isB isE ts st r = .ok (st', r') → (b ∈ st' ∨ b ∈ r'.unclosed) := by
+  intro ts
+  induction ts with
+  | nil =>
+    intro st r st' r' hinv h
+    simp only [loop, Except.ok.injEq, Prod.mk.injEq] at h
+    rw [← h.1, ← h.2]
+    rcases hinv with hi | hi
+    · exact Or.inr hi
+    · left
+      simp only [List.count_nil, Nat.zero_add] at hi
+      exact List.count_pos_iff.mp (by omega)
+  | cons t ts ih =>
+    intro st r st' r' hinv h
+    rw [loop] at h
+    have hcb : (t :: ts).count b = ts.count b + (if t = b then 1 else 0) := by
+      rw [List.count_cons]; simp only [beq_iff_eq]
+    have hce : (t :: ts).count b.endOf = ts.count b.endOf + (if t = b.endOf then 1 else 0) := by
+      rw [List.count_cons]; simp only [beq_iff_eq]
+    have hbe : ¬ (t = b ∧ t = b.endOf) := fun ⟨h1, h2⟩ => endOf_ne b (h2.symm.trans h1)
+    by_cases hBt : isB t = true
+    · simp only [hBt, if_true] at h
+      refine ih _ _ st' r' ?_ h
+      rcases hinv with hi | hi
+      · exact Or.inl (by rw [check_unclosed]; exact hi)
+      · right
+        rw [hcb, hce] at hi
+        rw [List.count_cons]; simp only [beq_iff_eq]
+        split at hi <;> split at hi <;> simp_all <;> omega
+    · simp only [hBt] at h
+      have htb : t ≠ b := fun e => hBt (e ▸ hB)
+      by_cases hE : isE t = true
+      · simp only [hE, if_true] at h
+        cases st with
+        | nil =>
+          simp only [List.isEmpty_nil, if_true] at h
+          refine ih _ _ st' r' ?_ h
+          rcases hinv with hi | hi
+          · exact Or.inl hi
+          · right
+            rw [hcb, hce] at hi
+            simp only [htb, if_false, List.count_nil, Nat.add_zero] at hi ⊢
+            split at hi <;> omega
+        | cons s rest =>
+          simp only [List.isEmpty_cons, pyPop] at h
+          refine ih _ _ st' r' ?_ h
+          rcases hinv with hi | hi
+          · left; split
+            · exact List.mem_append_left _ hi
+            · exact hi
+          · by_cases hsb : s = b
+            · by_cases hm : (s != t.unEnd) = true
+              · left; simp only [hm, if_true]
+                exact List.mem_append_right _ (by simp [hsb])
+              · right
+                have hs : s = t.unEnd := by simpa using hm
+                have hte : t = b.endOf := eq_endOf_of_unEnd (hEnd t hE) (hs.symm.trans hsb)
+                rw [hcb, hce] at hi
+                rw [List.count_cons] at hi
+                simp only [hte, endOf_ne b, if_false, if_true, hsb, beq_self_eq_true] at hi
+                omega
+            · right
+              rw [hcb, hce] at hi
+              rw [List.count_cons] at hi
+              have : (s == b) = false := by simpa using hsb
+              simp only [htb, if_false, this, Bool.false_eq_true] at hi
+              have hgoal : ts.count b + rest.count b > ts.count b.endOf := by
+                split at hi <;> omega
+              exact hgoal
+      · simp only [hE] at h
+        refine ih _ _ st' r' ?_ h
+        rcases hinv with hi | hi
+        · exact Or.inl (by rw [check_unclosed]; exact hi)
+        · right
+          rw [hcb, hce] at hi
+          simp only [htb, if_false] at hi
+          split at hi <;> omega
+
+
+end LiquidVerif.TagAudit
